@@ -124,13 +124,15 @@ def random_round(run, name, seed, n, hosts, family, depth, steps, budget=8, self
     direct = [h for h in hosts if h in ("direct", "stream")]
     core = [h for h in hosts if h not in ("direct", "stream")]
     # the legacy capability API host can only express part of the family: its own generator family
-    if "core_legacy" in core:
-        core.remove("core_legacy")
-        lcp, ltp = run.path(f"r_{name}_legacy.cases"), run.path(f"r_{name}_legacy.trace")
-        lib.gen_cases(lcp, seed + 7, max(n // 3, 50), "core_legacy", "legacy", depth, steps, budget)
+    for lh in ("core_legacy", "tester_legacy"):
+        if lh not in core:
+            continue
+        core.remove(lh)
+        lcp, ltp = run.path(f"r_{name}_{lh}.cases"), run.path(f"r_{name}_{lh}.trace")
+        lib.gen_cases(lcp, seed + 7, max(n // 3, 50), lh, "legacy", depth, steps, budget)
         lib.run_harness(lcp, ltp)
         lib.validate_trace(run, "Trace_Core", ltp, [f["id"] for f in lib.known_findings()["findings"]],
-                           label=f"random[{name}]@core_legacy")
+                           label=f"random[{name}]@{lh}")
     for grp, spec in ((direct, "Trace_Command"), (core, "Trace_Core")):
         if not grp:
             continue
@@ -432,6 +434,7 @@ def c05(run):
     mc_and_replay(run, "scripts", 5 if q else 7, ["ReadyClosed"], ["tester"], cap=600 if q else 10000)
     mc_core_and_replay(run, 3 if q else 4, ["tester"], cap=800 if q else 20000, mode="tester")
     random_round(run, "tester", run.seed + 9, 400 if q else 6000, ["tester"], "mixed", 3, 20, selftest=True)
+    random_round(run, "tester_legacy", run.seed + 10, 600 if q else 6000, ["tester_legacy"], "mixed", 2, 18, budget=9)
     # no wake-up lost inside one executor, whoever hosts it: ExecProtocol.tla on the repository's own tests
     proto_mc(run)
     proto_suite(run, selftest=True)
